@@ -11,6 +11,7 @@ EXPLANATION = (
     "runtime before running the user's reset; (R6) the active flag is written only by the shutdown protocol (false), module_restart "
     "(true) and the panic harness (false). (R7) the timer bookkeeping of ModuleRef::activate (bump, clearing a reached next_wakeup, installing the driver) does not depend on the module's active flag — a stale wake-up or the restart event must still clear the recorded wake-up time. (R8) the pending shutdown request is set only by the ModuleContext::shutdown* API and taken only by buf_process. "
     '(R9, shared with C05.R3) a wake-up is recorded iff its event is scheduled, also in the event that requests the shutdown. '
+    "(R6 also: ModuleRef::is_active is the module's own active flag and nothing else.) "
     "Decides these necessary conditions only; not timelines of arrivals, deadlines and restarts.")
 ASSUMPTIONS = ["dropping the tokio runtime cancels its tasks and their timers (Rt::shutdown replaces the runtime)"]
 
